@@ -439,7 +439,7 @@ func (e *c09Env) c09L4Round(r *rand.Rand, seq int) {
 			m.Eval(1)
 			m.Count("L4_replies_judged", 1)
 			m.Count("reply_kind_"+c09ReplyKind(q), 1)
-			c09JudgeMsg(m, "L4/"+q.Path, q.ID, q.Q, rp, true, func() any { return witness(map[string]any{"connection": tc, "query": q, "position": at}) })
+			c09JudgeClientMsg(m, "L4/"+q.Path, q.ID, q.Q, rp, func() any { return witness(map[string]any{"connection": tc, "query": q, "position": at}) })
 		}
 		if len(replies) > len(tc.Queries) {
 			c09V(m, "more-replies-than-queries/L4", fmt.Sprintf("%d queries were sent on the connection, %d replies came back", len(tc.Queries), len(replies)), witness(map[string]any{"connection": tc}))
